@@ -249,6 +249,12 @@ func c20SelfExit(c c20Case, base string) (string, string) {
 	if "one-shell" == how {
 		args = append(args, "-one-shell")
 	}
+	if strings.HasSuffix(how, "tab-ctrl-d") {
+		/* Something for Tab (Ctrl+I) to insert. */
+		src := filepath.Join(dir, "insert.sh")
+		os.WriteFile(src, []byte("f() { echo inserted; }\n"+strings.Repeat("# padding line of the insert source\n", 2000)), 0o644)
+		args = append(args, "-ctrl-i", src)
+	}
 	cmd := exec.Command(binPath("curlrevshell"), args...)
 	cmd.Env = c20Env(c, dir)
 	p, err := ptyrun.Start(cmd)
@@ -282,6 +288,19 @@ func c20SelfExit(c c20Case, base string) (string, string) {
 	case "ctrl-c":
 		p.Send("\x03")
 	case "ctrl-d":
+		p.Send("\x04")
+	case "tab-ctrl-d":
+		/* An insertion is under way when the operator leaves. */
+		p.Send("\t\x04")
+	case "queue-tab-ctrl-d":
+		/* Nobody takes the operator's lines (no shell): the queue fills,
+		an insertion then waits for room, and the operator leaves. */
+		for i := 0; i < 8; i++ {
+			p.Send(strings.Repeat("l\r", 128))
+			time.Sleep(50 * time.Millisecond)
+		}
+		p.Send("\t")
+		time.Sleep(300 * time.Millisecond)
 		p.Send("\x04")
 	case "one-shell":
 		ci.Close()
@@ -356,10 +375,10 @@ func c20(r *ev.Result, tier string) {
 		}
 	}
 	var exits []c20Case
-	for _, how := range []string{"ctrl-c", "ctrl-d", "one-shell"} {
+	for _, how := range []string{"ctrl-c", "ctrl-d", "one-shell", "tab-ctrl-d", "queue-tab-ctrl-d"} {
 		for _, gc := range []bool{false, true} {
 			exits = append(exits, c20Case{TTY: true, Exit: how, GC: gc})
-			if "one-shell" != how {
+			if "one-shell" != how && "queue-tab-ctrl-d" != how {
 				exits = append(exits, c20Case{TTY: true, Exit: how + "-attached", GC: gc})
 			}
 		}
